@@ -44,6 +44,9 @@ def main(tier, which='C07'):
             if name == 'exception':
                 m = re.search(r'expression: (.*?)(\n| \||$)', what)
                 key = ('assertion:' + re.sub(r'[^A-Za-z0-9_>!=<.()-]+', '', m.group(1))[:60]) if m else 'exception:' + what[:40]
+                # (class name only) a node had run away to coordinates beyond 1e5 when the check failed
+                if m and 'width()-w' in m.group(1) and any(abs(v) > 1e5 for p_ in brief['pos'] for v in p_):
+                    key += ':layout-ran-away-beyond-1e5'
             vd.violation(key, '%s %s: %s' % (name, what[:160], json.dumps(brief)[:700]), brief)
     if which == 'C07':
         # design level: the pair-resolution loop of makeFeasible() terminates (liveness under weak fairness); the model of the code before
